@@ -96,6 +96,16 @@ def step (j : Json) : R Json := do
     match sortPointPairs lines check circ with
     | .error e => pure (errJson e)
     | .ok out => pure (obj [("lines", ofList ofLine (out.map (·.line))), ("ind", ofNats (out.map (·.idx)))])
+  | "sort_line" =>
+    let pts ← fP3s j "pts"
+    let tol ← fRat j "tol"
+    match sortPointsOnLine pts tol with
+    | .error e => pure (errJson e)
+    | .ok out => pure (obj [("r", ofNats out)])
+  | "sort_plane_xy" =>
+    let pts ← fP2s j "pts"
+    let c ← toP2 (← fRats j "centre")
+    pure (obj [("r", ofNats (sortPointPlaneXY pts c))])
   | "sort_multi" =>
     let chains ← field j "chains" >>= jList (jList (jList jInt))
     let chains ← chains.mapM (fun c => c.mapM toLine)
